@@ -248,6 +248,29 @@ claim('C06',
       'quoted in the docstrings). Pause loops not in while form give exit 2 (cannot conclude).',
       'DESIGN.md section 3, C06')
 
+claim('C07',
+      'abstract interpretation of the two primitives with fault injection: effect sequences '
+      '(one write), str/bytes typestate of every returned / text-used value, exact loop '
+      'unrolling under reply scenarios (read counts per request kind), pipeline recognition of '
+      'the request-name normalisation',
+      'Decides: D1 query and command write encode(request) at most once on any path and exactly '
+      'once on every fault-free path, as the first port operation, not from a loop; with no '
+      'port or no text nothing touches the port and None is returned. D2 every value query '
+      'returns (with port and text) has type str on every path, including paths through the '
+      'exception handlers after any read, and no bytes value is used as text - readline() is '
+      'bytes, .decode() is str (this is the rule that found the undecoded re-read repaired in '
+      'b9f5bd4). D3 with a SerialException injected at every port call nothing escapes. D4 for '
+      'each of the seven documented no-OK queries, nine ordinary queries and commands, under '
+      '"every read delivers a line" the primitive performs exactly 1 / 2 / 1 reads and returns '
+      'the first line read; under "nothing ever arrives" exactly 101 / 202 / 101 reads (each '
+      'awaited line gets the first read plus 100 empty re-reads; loops unrolled abstractly, so a '
+      'shared or missing retry budget is seen); the no-OK decision is taken on the request text '
+      'before the first comma, trimmed and lower-cased. Not decided: alignment over whole '
+      'histories (follows from the per-call counts against a conforming board).',
+      'Trusted: Python ast, vf/interp.py, vf/legacy.py, vf/loops.py, the no-OK list '
+      '{a,i,mr,pi,qm,qg,v} from the EBB command reference.',
+      'DESIGN.md section 3, C07')
+
 
 def build():
     checks = []
